@@ -184,6 +184,20 @@ func runC12(c *Ctx) {
 			c.Fail("monitor", "M1-email", "body-email", "an @name with a top level that is not allowed did not stay literal",
 				map[string]any{"template": mail, "got": out, "err": fmt.Sprint(err)})
 		}
+		// (c') the same in a context without any properties: no top level is allowed, every @name is literal
+		{
+			mail2 := genPlain(r, 6) + "@" + Pick(r, []string{"contact", "fields.age", "bob", "example.com", "x"}) + Pick(r, []string{"", " or ping @alice", ".", " @fields"})
+			var out2 string
+			var err2 error
+			if !c.Guard("M1-email", "panic:template", map[string]any{"template": mail2}, func() { out2, err2 = evalTpl(mail2, types.XObjectEmpty) }) {
+				ok2 := err2 == nil && out2 == mail2
+				check("M1-email-empty-context", classifyString(mail2), ok2)
+				if !ok2 {
+					c.Fail("monitor", "M1-email", "body-email:empty-context", "in a context without properties an @name did not stay literal",
+						map[string]any{"template": mail2, "got": out2, "err": fmt.Sprint(err2)})
+				}
+			}
+		}
 		if i < 3 {
 			c.Sample(map[string]any{"check": "M1", "templates": []string{tpl, lit, mail}})
 		}
@@ -212,9 +226,11 @@ func runC12(c *Ctx) {
 		if i%2 == 0 {
 			for _, t := range []string{s, tpl, lit, mail} {
 				u := r.Bool()
-				var tp []string
-				if r.Chance(80) {
+				var tp []string // nil: every identifier is allowed
+				if x := r.Intn(100); x < 70 {
 					tp = tops
+				} else if x < 85 {
+					tp = []string{} // empty, not nil: none is (a context without properties)
 				}
 				us := "0"
 				if u {
